@@ -1029,6 +1029,8 @@ class QuantityMeta(ClassWithDefinitionMeta):
         cls = super().__new__(mcs, name, bases, clsdict,
                               define_as=define_as)
         assert isinstance(cls, QuantityMeta)
+        # map of units associated with the new class (must not be inherited)
+        cls._unit_map = {}
         if ref_unit_symbol:
             cls._ref_unit = cls._make_ref_unit(ref_unit_symbol, ref_unit_name,
                                                ref_unit_def)
